@@ -75,7 +75,7 @@ def evaluate(prop, imports, fam, to_coq, cases, what=("check", "oracle"), tag="c
     return outs, res.get("check", []), res.get("oracle", []), sorted(failed), err
 
 
-def shrink(prop, imports, fam, to_coq, case, pred, rounds=12, width=40):
+def shrink(prop, imports, fam, to_coq, case, pred, rounds=12, width=40, known_matcher=None):
     """Greedy delta-debugging: keep the first candidate on which pred still holds."""
     cur = case
     for _ in range(rounds):
@@ -86,7 +86,9 @@ def shrink(prop, imports, fam, to_coq, case, pred, rounds=12, width=40):
             outs, bc, bo, failed, err = evaluate(prop, imports, fam, to_coq, cands, tag="shrink")
         except Exception:
             break
-        hit = [i for i in range(len(cands)) if pred(i, outs, bc, bo, failed)]
+        # a minimised replay must not slide into a recorded known finding
+        hit = [i for i in range(len(cands)) if pred(i, outs, bc, bo, failed)
+               and not match_known(prop, cands[i], outs[i], known_matcher)]
         if not hit:
             break
         cur = min((cands[i] for i in hit), key=lambda c: len(json.dumps(c)))
@@ -146,7 +148,7 @@ def standard(run, prop, theorems, imports, fam, gen_cases, to_coq, n, nontrivial
 
         def pred(j, o, bc, bo, fl, is_fail=is_fail):
             return (j in fl) if is_fail else (j in bo)
-        small = shrink(prop, imports, fam, to_coq, cases[i], pred)
+        small = shrink(prop, imports, fam, to_coq, cases[i], pred, known_matcher=known_matcher)
         o2, bc2, bo2, f2, _ = evaluate(prop, imports, fam, to_coq, [small], tag="final")
         run.violation({"kind": "property fails on the implementation", "case": small, "impl": o2[0],
                        "original_case": cases[i], "family": fam,
@@ -165,7 +167,7 @@ def standard(run, prop, theorems, imports, fam, gen_cases, to_coq, n, nontrivial
 
             def pred2(k, o, bc, bo, fl, is_fail=is_fail):
                 return (k in fl) if is_fail else (k in bo)
-            small = shrink(prop, imports, fam, to_coq, more[j], pred2)
+            small = shrink(prop, imports, fam, to_coq, more[j], pred2, known_matcher=known_matcher)
             o2 = vlib.run_harness(fam, [small])
             run.violation({"kind": "property fails on the implementation (found after the correspondence broke)",
                            "case": small, "impl": o2[0], "family": fam})
